@@ -311,6 +311,7 @@ fn case_destroy_spin(out: &mut CaseOut, seed: u64, idx: u64) {
             state: parking_lot::Mutex::new((false, false, String::new())),
             cv: parking_lot::Condvar::new(),
             trace: parking_lot::Mutex::new(vec![]),
+            all_calls: parking_lot::Mutex::new(vec![]),
         });
         let fs: Arc<dyn FileSystem> = gate_fs.clone();
         match DB::open(options(&fs, &db_path, memtable)) {
@@ -367,7 +368,11 @@ fn case_destroy_spin(out: &mut CaseOut, seed: u64, idx: u64) {
         ctx["spinning_opens_that_succeeded"] = json!(held.len());
         out.add("destroy_spin_trials", 1);
         if held.len() > 1 {
-            out.violate("C17/several-racing-opens-succeeded/while-destroy-ran", json!({"ctx": ctx, "files": listing(&scratch.dir)}));
+            let calls = gate_fs.all_calls.lock().clone();
+            // the interesting ones: everything but the refused attempts (create_dir_all ok, lock_file ERR)
+            let interesting: Vec<String> = calls.iter().enumerate().filter(|(_, c)| !(c.ends_with("lock_file LOCK ERR") || (c.contains("create_dir_all") && c.ends_with("ok") && c.contains("spinner")))).map(|(i, c)| format!("{i}: {c}")).collect();
+            let tail: Vec<String> = interesting[interesting.len().saturating_sub(120)..].to_vec();
+            out.violate("C17/several-racing-opens-succeeded/while-destroy-ran", json!({"ctx": ctx, "files": listing(&scratch.dir), "last_file_system_calls": tail}));
         }
         if let Some(db) = held.first() {
             instances_won += 1;
@@ -410,9 +415,18 @@ struct GateFs {
     state: parking_lot::Mutex<(bool, bool, String)>,
     cv: parking_lot::Condvar,
     trace: parking_lot::Mutex<Vec<String>>,
+    /// every mutating call of every thread with its outcome, in completion order (diagnosis)
+    all_calls: parking_lot::Mutex<Vec<String>>,
 }
 
 impl GateFs {
+    fn done(&self, what: &str, path: &std::path::Path, ok: bool) {
+        let t = std::thread::current();
+        let mut all = self.all_calls.lock();
+        if all.len() < 200_000 {
+            all.push(format!("{} {what} {} {}", t.name().unwrap_or("?"), path.file_name().map(|n| n.to_string_lossy().to_string()).unwrap_or_default(), if ok { "ok" } else { "ERR" }));
+        }
+    }
     fn gate(&self, what: &str, path: &std::path::Path) {
         if crate::director::role() != DESTROYER {
             return;
@@ -463,11 +477,15 @@ impl FileSystem for GateFs {
     }
     fn create_dir(&self, path: &std::path::Path) -> std::io::Result<()> {
         self.gate("create_dir", path);
-        self.inner.create_dir(path)
+        let r = self.inner.create_dir(path);
+        self.done("create_dir", path, r.is_ok());
+        r
     }
     fn create_dir_all(&self, path: &std::path::Path) -> std::io::Result<()> {
         self.gate("create_dir_all", path);
-        self.inner.create_dir_all(path)
+        let r = self.inner.create_dir_all(path);
+        self.done("create_dir_all", path, r.is_ok());
+        r
     }
     fn list_dir(&self, path: &std::path::Path) -> std::io::Result<Vec<PathBuf>> {
         self.gate("list_dir", path);
@@ -483,15 +501,21 @@ impl FileSystem for GateFs {
     }
     fn create_file(&self, path: &std::path::Path, append: bool) -> std::io::Result<Box<dyn raindb::fs::RandomAccessFile>> {
         self.gate("create_file", path);
-        self.inner.create_file(path, append)
+        let r = self.inner.create_file(path, append);
+        self.done("create_file", path, r.is_ok());
+        r
     }
     fn remove_file(&self, path: &std::path::Path) -> std::io::Result<()> {
         self.gate("remove_file", path);
-        self.inner.remove_file(path)
+        let r = self.inner.remove_file(path);
+        self.done("remove_file", path, r.is_ok());
+        r
     }
     fn remove_dir(&self, path: &std::path::Path) -> std::io::Result<()> {
         self.gate("remove_dir", path);
-        self.inner.remove_dir(path)
+        let r = self.inner.remove_dir(path);
+        self.done("remove_dir", path, r.is_ok());
+        r
     }
     fn remove_dir_all(&self, path: &std::path::Path) -> std::io::Result<()> {
         self.gate("remove_dir_all", path);
@@ -507,7 +531,9 @@ impl FileSystem for GateFs {
     }
     fn lock_file(&self, path: &std::path::Path) -> std::io::Result<raindb::fs::FileLock> {
         self.gate("lock_file", path);
-        self.inner.lock_file(path)
+        let r = self.inner.lock_file(path);
+        self.done("lock_file", path, r.is_ok());
+        r
     }
 }
 
@@ -536,6 +562,7 @@ fn case_destroy_race(out: &mut CaseOut, seed: u64, idx: u64) {
         state: parking_lot::Mutex::new((false, false, String::new())),
         cv: parking_lot::Condvar::new(),
         trace: parking_lot::Mutex::new(vec![]),
+        all_calls: parking_lot::Mutex::new(vec![]),
     });
     let fs: Arc<dyn FileSystem> = gate_fs.clone();
     let memtable = *rng.pick(&[512usize, 65536]);
